@@ -138,6 +138,23 @@ func c11(r *core.Report) {
 			r.Analysed(fn)
 			name := core.FnName(fn)
 			sfs, ok := success[name]
+			passUp := false
+			if !ok && fn.Signature.Results().Len() == 2 && core.IsErrorType(fn.Signature.Results().At(1).Type()) {
+				// a helper with results (int, error) that is not in the table: its success signal is a nil
+				// error, and it must pass the hub's number up unchanged (its callers are checked as bridges)
+				passUp = true
+				for _, ret := range core.Returns(fn) {
+					for _, v := range core.ReturnValues(ret, 0) {
+						c2, idx, isRes := core.CallResult(v)
+						if k, isK := core.ConstInt(v); !(isRes && c2 == call && idx == 0) && !(isK && k <= 0) {
+							passUp = false
+						}
+					}
+				}
+				if passUp {
+					sfs, ok = []successFn{retNilErr}, true
+				}
+			}
 			if !ok {
 				r.Undecided("C11-HUB-ERROR-IS-ERROR", name+" AskHub.Deliver", p.Pos(call.Pos()), "consumer of AskHub.Deliver is not in the success-site table: add it with its success-signalling site")
 				continue
@@ -178,7 +195,13 @@ func c11(r *core.Report) {
 				}
 				return false
 			}
+			switch {
+			case passUp:
+				name = "passUp"
+			}
 			switch name {
+			case "passUp":
+				r.OK("C11-NEG-IS-ERROR", core.FnName(fn)+" n", p.Pos(call.Pos()), "helper: the hub's result is passed up unchanged next to the error (its callers are checked as bridges)")
 			case "(*p2p/p/mbapp.Swarm[A, Pub]).handleAskRequest":
 				// n is converted by extractErrorCode; checked below (C11-NEG-IS-ERROR on extractErrorCode)
 				xe := needFn(r, "p/mbapp", "extractErrorCode")
@@ -344,10 +367,42 @@ func c11(r *core.Report) {
 						okAll = false
 					default:
 						// must derive from a handler result (call of a function value or hub result), not be fabricated
-						if !core.DerivesFrom(v, func(x ssa.Value) bool {
+						fromHandler := func(x ssa.Value) bool {
 							c, ok := x.(*ssa.Call)
 							return ok && (core.IsParamFuncCall(c.Common()) || core.IsCallToFn(c.Common(), askDeliver))
-						}) {
+						}
+						// a module helper with results (int, error) that passes a handler/hub result through,
+						// or fails with a provably non-nil error, used by the bridge on its err == nil edge only
+						viaHelper := func(x ssa.Value) bool {
+							c, ok := x.(*ssa.Call)
+							if !ok {
+								return false
+							}
+							g := core.StaticCallee(c.Common())
+							if g == nil || !p.InModule(g) || g.Blocks == nil || g.Signature.Results().Len() != 2 || !core.IsErrorType(g.Signature.Results().At(1).Type()) {
+								return false
+							}
+							nn := nnShared(p)
+							for _, gr := range core.Returns(g) {
+								errNonNil := true
+								for _, ev := range core.ReturnValues(gr, 1) {
+									if !nn.At(ev, gr) {
+										errNonNil = false
+									}
+								}
+								if errNonNil {
+									continue
+								}
+								for _, iv := range core.ReturnValues(gr, 0) {
+									if !core.DerivesFrom(iv, fromHandler) {
+										return false
+									}
+								}
+							}
+							// the bridge must not return the helper's number on the helper's error edge
+							return !core.Reach(lit, c, cutErrNilOf(c), nil)[ret]
+						}
+						if !core.DerivesFrom(v, func(x ssa.Value) bool { return fromHandler(x) || viaHelper(x) }) {
 							okAll = false
 						}
 					}
